@@ -337,17 +337,20 @@ pub fn typed(args: &[String]) {
                 one_typed(&mut out, &format!("doc-seed-{k}:{what}"), &schema, &adoc::render_doc(m));
             }
         }
-        for _ in 0..depth2 {
+        let per = 6;
+        for _ in 0..(depth2 + per - 1) / per {
             let (w1, m1) = &ms[rng.below(ms.len())];
             let ms2 = adoc::doc_mutants(m1);
             if ms2.is_empty() {
                 continue;
             }
-            let (w2, m2) = &ms2[rng.below(ms2.len())];
-            let text = adoc::render_doc(m2);
-            one_typed(&mut out, &format!("doc-seed-{k}:{w1}+{w2}"), &schema, &text);
-            if rng.chance(1, 4) {
-                one_mixed(&mut out, &format!("mixed-seed-{k}:{w1}+{w2}"), &format!("{}\n{}", text, adoc::SCHEMA_SDL));
+            for _ in 0..per {
+                let (w2, m2) = &ms2[rng.below(ms2.len())];
+                let text = adoc::render_doc(m2);
+                one_typed(&mut out, &format!("doc-seed-{k}:{w1}+{w2}"), &schema, &text);
+                if rng.chance(1, 4) {
+                    one_mixed(&mut out, &format!("mixed-seed-{k}:{w1}+{w2}"), &format!("{}\n{}", text, adoc::SCHEMA_SDL));
+                }
             }
         }
     }
